@@ -8,20 +8,35 @@
 // SyncMetricStorage::Collect releasing its lock and TemporalMetricStorage looking at the interval it was
 // handed) that real-thread stress hits only by luck.
 //
-// Scenario: a MeterProvider with 1..2 readers (delta / cumulative), one meter, one counter or up-down
-// counter (long or double), optionally created by a recorder thread itself while a reader already
-// collects; 1..3 recorder threads x 1..4 Add calls over up to 3 attribute sets; one collecting thread per
-// reader issuing 0..3 Collect calls; a final Collect per reader after everything has been joined.
-// Oracle (the statement of C06, per reader and attribute set):
+// Scenario: a MeterProvider with 1..2 readers (delta / cumulative), one meter "m", one counter or up-down
+// counter "c" (long or double), optionally created by a recorder thread itself while a reader already
+// collects, optionally behind a view whose attribute allow-list is empty (every attribute set lands in
+// the one series {}); 1..3 recorder threads x 1..4 Add calls over up to 3 attribute sets (through a shared
+// handle or handles of their own, which they may release and request again between two Adds; the last
+// recorder may record on a second meter "m2" which it obtains itself - GetMeter and the first
+// registration of a storage race the collections); one collecting thread per reader issuing 0..3 Collect
+// calls; optionally a further reader is registered (AddMetricReader, by the main thread, while no Collect
+// call is in progress but recorders still run) after those collector threads have been joined, followed
+// by a second round of collecting threads for all readers; a final Collect per reader after everything
+// has been joined.
+// Oracle (the statement of C06, per reader, stream and attribute set; logical stamps of the scheduler
+// decide what a collection must / may contain):
 //   delta      : the points over all collections add up exactly to what was recorded
 //   cumulative : points never exceed what had been recorded when the Collect returned, never fall below
 //                what had been recorded when it was called (monotonic counters: never decrease), and the
 //                final point equals the total
 //   intervals  : a reader's successive delta points abut (start == previous end, first == SDK start);
-//                cumulative points start at SDK start
+//                cumulative points start at SDK start; every interval ends inside the Collect call that
+//                delivered it (virtual clock)
+//   late reader: "may not receive any in-flight meter data" (MeterProvider::AddMetricReader): a measurement
+//                whose Add call began before the registration returned may or may not be counted for it
+//                (two-sided bounds instead of equalities; its first delta interval may start anywhere
+//                from SDK start on); measurements after the registration are counted exactly once, and
+//                the readers that were there from the start keep the exact oracle across the registration
 #include <map>
 #include <memory>
 #include <string>
+#include <unordered_map>
 #include <vector>
 
 #include "opentelemetry/metrics/sync_instruments.h"
@@ -31,6 +46,10 @@
 #include "opentelemetry/sdk/metrics/meter_context.h"
 #include "opentelemetry/sdk/metrics/meter_provider.h"
 #include "opentelemetry/sdk/metrics/metric_reader.h"
+#include "opentelemetry/sdk/metrics/view/attributes_processor.h"
+#include "opentelemetry/sdk/metrics/view/instrument_selector.h"
+#include "opentelemetry/sdk/metrics/view/meter_selector.h"
+#include "opentelemetry/sdk/metrics/view/view.h"
 #include "opentelemetry/sdk/metrics/view/view_registry.h"
 #include "opentelemetry/sdk/resource/resource.h"
 #include "sched_harness.h"
@@ -145,6 +164,7 @@ struct AddOp
   int64_t value;
   int set;
   bool yield_before;
+  bool renew_handle = false;  // own handle only: release it and request the instrument again before this Add
 };
 struct Cfg
 {
@@ -154,10 +174,18 @@ struct Cfg
   bool own_handles      = false;  // every recorder requests its own handle
   std::vector<std::vector<AddOp>> recorders;
   std::vector<std::vector<int>> collectors;  // per reader: sleep (us, 0 = yield) before each Collect
+  // later additions (a zero byte each = absent)
+  bool view_drops_attributes = false;          // a view with an empty attribute allow-list
+  int late_reader            = 0;              // 0 none, 1 a delta reader, 2 a cumulative reader joins late
+  std::vector<std::vector<int>> collectors_b;  // second round, per reader including the late one
+  bool second_meter = false;                   // the last recorder records on meter "m2", obtained by itself
 };
+
+constexpr int kStreams = 2;  // 0: meter "m", 1: meter "m2"
 
 struct Point
 {
+  int stream;
   int set;
   int64_t value;  // integer units (doubles are generated as integers)
   uint64_t start_ns, end_ns;
@@ -165,17 +193,19 @@ struct Point
 struct CollectRec
 {
   int reader;
-  uint64_t call, ret;
+  uint64_t call, ret;  // logical stamps
+  uint64_t t_call = 0, t_ret = 0;  // virtual clock
   bool ok;
-  size_t n_md = 0;
-  uint64_t md_start = 0, md_end = 0;
+  size_t n_md[kStreams]      = {0, 0};
+  uint64_t md_start[kStreams] = {0, 0}, md_end[kStreams] = {0, 0};
   std::vector<Point> points;
   std::string problem;
 };
 struct AddRec
 {
   uint64_t call, ret;
-  int set;
+  int stream;
+  int set;  // after the view
   int64_t value;
 };
 
@@ -213,6 +243,24 @@ Cfg gen_cfg(vh::Reader &rd)
   }
   c.create_in_thread = rd.chance(25);
   c.own_handles      = rd.chance(25);
+  // ---- later additions
+  c.view_drops_attributes = rd.chance(20);
+  c.late_reader           = static_cast<int>(rd.weighted({6, 2, 2}));
+  if (c.late_reader)
+    for (unsigned r = 0; r < nr + 1; ++r)
+    {
+      std::vector<int> prog;
+      unsigned n = rd.below(3);
+      for (unsigned i = 0; i < n; ++i)
+        prog.push_back(rd.coin() ? 0 : 50);
+      c.collectors_b.push_back(prog);
+    }
+  c.second_meter = nrec >= 2 && rd.chance(20);
+  if (c.own_handles || c.second_meter)
+    for (size_t t = 0; t < c.recorders.size(); ++t)
+      if ((c.own_handles && t > 0) || (c.second_meter && t + 1 == c.recorders.size()))
+        for (size_t i = 1; i < c.recorders[t].size(); ++i)
+          c.recorders[t][i].renew_handle = rd.chance(25);
   return c;
 }
 
@@ -223,18 +271,28 @@ std::string describe(const Cfg &c)
     s += d ? "D" : "C";
   s += c.create_in_thread ? " created-by-recorder-0" : "";
   s += c.own_handles ? " own-handles" : "";
+  s += c.view_drops_attributes ? " view-drops-all-attributes" : "";
+  s += c.late_reader ? (c.late_reader == 1 ? " late-reader=D" : " late-reader=C") : "";
   s += "\n";
   for (size_t t = 0; t < c.recorders.size(); ++t)
   {
-    s += " R" + std::to_string(t) + ":";
+    s += " R" + std::to_string(t) + (c.second_meter && t + 1 == c.recorders.size() ? "(on meter m2, obtained by itself)" : "") + ":";
     for (auto &a : c.recorders[t])
-      s += std::string(a.yield_before ? " y" : " ") + "add(" + std::to_string(a.value) + ",set" + std::to_string(a.set) + ")";
+      s += std::string(a.yield_before ? " y" : " ") + (a.renew_handle ? "renew-handle," : "") + "add(" +
+           std::to_string(a.value) + ",set" + std::to_string(a.set) + ")";
     s += "\n";
   }
   for (size_t r = 0; r < c.collectors.size(); ++r)
   {
     s += " collector" + std::to_string(r) + ":";
     for (int w : c.collectors[r])
+      s += w ? " sleep,collect" : " yield,collect";
+    s += c.late_reader ? " | joined\n" : " | final collect\n";
+  }
+  for (size_t r = 0; r < c.collectors_b.size(); ++r)
+  {
+    s += " round-2 collector" + std::to_string(r) + (r + 1 == c.collectors_b.size() ? "(late)" : "") + ":";
+    for (int w : c.collectors_b[r])
       s += w ? " sleep,collect" : " yield,collect";
     s += " | final collect\n";
   }
@@ -248,8 +306,9 @@ uint64_t ns_of(otel::common::SystemTimestamp t)
 }  // namespace
 
 VH_TARGET(meter_sched, 4,
-          "a case is non-trivial when a Collect call overlapped an Add call (or the instrument's creation) by "
-          "logical stamps, or the schedule preempted a running thread; distinct = distinct (scenario, schedule taken)")
+          "a case is non-trivial when a Collect call overlapped an Add call (or the instrument's creation, or the "
+          "registration of the late reader overlapped an Add call) by logical stamps, or the schedule preempted a "
+          "running thread; distinct = distinct (scenario, schedule taken)")
 {
   static NullLog *quiet = [] {
     auto *h = new NullLog;
@@ -262,7 +321,10 @@ VH_TARGET(meter_sched, 4,
   c.note(describe(cfg));
   std::vector<AddRec> adds;
   std::vector<CollectRec> collects;
-  uint64_t sdk_start = 0, created_call = 0, created_ret = 0;
+  uint64_t sdk_start = 0, created_call = 0, created_ret = 0, reg_call = 0, reg_ret = 0;
+  bool never_created = false;
+  std::vector<bool> reader_delta = cfg.reader_delta;  // grows when the late reader joins
+  const int late_index           = cfg.late_reader ? static_cast<int>(cfg.reader_delta.size()) : -1;
 
   vsh::ByteSource src(c.rd, 40);
   vsched::Options opt;
@@ -270,6 +332,19 @@ VH_TARGET(meter_sched, 4,
   c.note(std::string(" schedule-mode=") + src.mode_name() + "\n");
   vsched::RunStats rs = vsched::run(&src, opt, vsh::fatal, [&](vsched::Scheduler &s) {
     std::unique_ptr<sdkm::ViewRegistry> reg(new sdkm::ViewRegistry);
+    if (cfg.view_drops_attributes)
+    {
+      // every attribute is dropped: all measurements of the stream land in the series {}
+      static const sdkm::InstrumentType types[] = {sdkm::InstrumentType::kCounter, sdkm::InstrumentType::kCounter,
+                                                   sdkm::InstrumentType::kUpDownCounter,
+                                                   sdkm::InstrumentType::kUpDownCounter};
+      reg->AddView(std::unique_ptr<sdkm::InstrumentSelector>(new sdkm::InstrumentSelector(types[cfg.kind], "c", "")),
+                   std::unique_ptr<sdkm::MeterSelector>(new sdkm::MeterSelector("", "", "")),
+                   std::unique_ptr<sdkm::View>(new sdkm::View(
+                       "", "", "", sdkm::AggregationType::kDefault, nullptr,
+                       std::unique_ptr<sdkm::AttributesProcessor>(
+                           new sdkm::FilteringAttributesProcessor(std::unordered_map<std::string, bool>{})))));
+    }
     std::unique_ptr<sdkm::MeterContext> ctx(
         new sdkm::MeterContext(std::move(reg), otel::sdk::resource::Resource::Create({})));
     sdk_start = ns_of(ctx->GetSDKStartTime());
@@ -280,6 +355,8 @@ VH_TARGET(meter_sched, 4,
       readers.emplace_back(new MReader(d));
       provider.AddMetricReader(readers.back());
     }
+    if (cfg.late_reader)
+      readers.reserve(readers.size() + 1);  // (collector threads of round 1 hold no reference into it anyway)
     auto meter = provider.GetMeter("m", "1", "");
     Handle shared;
     bool created = false;
@@ -298,21 +375,34 @@ VH_TARGET(meter_sched, 4,
 
     auto collect = [&](int r) {
       CollectRec rec;
-      rec.reader = r;
-      rec.call   = s.stamp();
-      rec.ok     = readers[static_cast<size_t>(r)]->Collect([&](sdkm::ResourceMetrics &rm) {
+      rec.reader      = r;
+      MReader *reader = readers[static_cast<size_t>(r)].get();
+      rec.t_call      = ns_of(vsched::system_clock::now());
+      rec.call        = s.stamp();
+      rec.ok          = reader->Collect([&](sdkm::ResourceMetrics &rm) {
         for (auto &sm : rm.scope_metric_data_)
+        {
+          int stream = -1;
+          if (sm.scope_)
+            stream = sm.scope_->GetName() == "m" ? 0 : sm.scope_->GetName() == "m2" ? 1 : -1;
+          if (stream < 0)
+          {
+            rec.problem = "metrics of a scope nobody created";
+            continue;
+          }
           for (auto &md : sm.metric_data_)
           {
-            ++rec.n_md;
-            rec.md_start    = ns_of(md.start_ts);
-            rec.md_end      = ns_of(md.end_ts);
-            bool want_delta = readers[static_cast<size_t>(r)]->delta();
-            if ((md.aggregation_temporality == sdkm::AggregationTemporality::kDelta) != want_delta)
+            ++rec.n_md[stream];
+            rec.md_start[stream] = ns_of(md.start_ts);
+            rec.md_end[stream]   = ns_of(md.end_ts);
+            if (md.instrument_descriptor.name_ != "c")
+              rec.problem = "a stream nobody configured";
+            if ((md.aggregation_temporality == sdkm::AggregationTemporality::kDelta) != reader->delta())
               rec.problem = "a point with the wrong temporality";
             for (auto &p : md.point_data_attr_)
             {
               Point pt;
+              pt.stream   = stream;
               pt.start_ns = ns_of(md.start_ts);
               pt.end_ns   = ns_of(md.end_ts);
               auto it     = p.attributes.find("k");
@@ -342,52 +432,99 @@ VH_TARGET(meter_sched, 4,
               rec.points.push_back(pt);
             }
           }
+        }
         return true;
       });
-      rec.ret = s.stamp();
+      rec.ret   = s.stamp();
+      rec.t_ret = ns_of(vsched::system_clock::now());
       collects.push_back(rec);
     };
 
-    std::vector<std::unique_ptr<vsched::thread>> ts;
+    std::vector<std::unique_ptr<vsched::thread>> recorders, round1, round2;
     for (size_t t = 0; t < cfg.recorders.size(); ++t)
-      ts.emplace_back(new vsched::thread([&, t]() {
+      recorders.emplace_back(new vsched::thread([&, t]() {
         Handle own;
-        Handle *h = &shared;
+        Handle *h       = &shared;
+        bool on_m2      = cfg.second_meter && t + 1 == cfg.recorders.size();
+        om::Meter *mine = meter.get();
+        nostd::shared_ptr<om::Meter> m2;
         if (cfg.create_in_thread && t == 0)
           create(shared);
-        else
-          for (int guard = 0; !created && guard < 100000; ++guard)
-            vsched::this_thread::yield();
-        if (cfg.own_handles && t > 0)
+        else if (!on_m2)
         {
-          own.create(*meter, cfg.kind);
+          // wait for recorder 0.  Not by yielding only: a thread that never blocks keeps the virtual clock
+          // from advancing, and recorder 0 may be asleep in the slow path of a spin lock (sleep_for(1ms))
+          for (int guard = 0; !created && guard < 100000; ++guard)
+            if (guard < 40)
+              vsched::this_thread::yield();
+            else
+              vsched::this_thread::sleep_for(std::chrono::microseconds(20));
+          if (!created)
+          {
+            never_created = true;
+            return;
+          }
+        }
+        if (on_m2)
+        {
+          m2   = provider.GetMeter("m2", "1", "");
+          mine = m2.get();
+        }
+        if (on_m2 || (cfg.own_handles && t > 0))
+        {
+          own.create(*mine, cfg.kind);
           h = &own;
         }
         for (auto &a : cfg.recorders[t])
         {
           if (a.yield_before)
             vsched::this_thread::yield();
+          if (a.renew_handle && h == &own)
+          {
+            own = Handle();  // the handle goes away while other handles record and readers collect ...
+            own.create(*mine, cfg.kind);  // ... and the instrument is requested again
+          }
           AddRec r;
-          r.set   = a.set;
-          r.value = a.value;
-          r.call  = s.stamp();
+          r.stream = on_m2 ? 1 : 0;
+          r.set    = cfg.view_drops_attributes ? 0 : a.set;
+          r.value  = a.value;
+          r.call   = s.stamp();
           h->add(cfg.kind, a.value, a.set);
           r.ret = s.stamp();
           adds.push_back(r);
         }
       }));
-    for (size_t r = 0; r < cfg.collectors.size(); ++r)
-      ts.emplace_back(new vsched::thread([&, r]() {
-        for (int w : cfg.collectors[r])
-        {
-          if (w)
-            vsched::this_thread::sleep_for(std::chrono::microseconds(w));
-          else
-            vsched::this_thread::yield();
-          collect(static_cast<int>(r));
-        }
-      }));
-    for (auto &t : ts)
+    auto spawn_collectors = [&](const std::vector<std::vector<int>> &progs,
+                                std::vector<std::unique_ptr<vsched::thread>> &out) {
+      for (size_t r = 0; r < progs.size(); ++r)
+        out.emplace_back(new vsched::thread([&, r]() {
+          for (int w : progs[r])
+          {
+            if (w)
+              vsched::this_thread::sleep_for(std::chrono::microseconds(w));
+            else
+              vsched::this_thread::yield();
+            collect(static_cast<int>(r));
+          }
+        }));
+    };
+    spawn_collectors(cfg.collectors, round1);
+    for (auto &t : round1)
+      t->join();
+    if (cfg.late_reader)
+    {
+      // no Collect call is in progress (AddMetricReader is documented as not thread safe); the recorders
+      // may still be running: recording does not involve the list of readers
+      reg_call = s.stamp();
+      reader_delta.push_back(cfg.late_reader == 1);
+      readers.emplace_back(new MReader(cfg.late_reader == 1));
+      provider.AddMetricReader(readers.back());
+      reg_ret = s.stamp();
+      spawn_collectors(cfg.collectors_b, round2);
+    }
+    for (auto &t : recorders)
+      t->join();
+    for (auto &t : round2)
       t->join();
     for (size_t r = 0; r < readers.size(); ++r)
       collect(static_cast<int>(r));
@@ -406,129 +543,193 @@ VH_TARGET(meter_sched, 4,
     c.note(sch + "\n");
   }
   VH_CHECK(c, !rs.leaked_threads, "a logical thread was still alive at the end of the scenario");
+  VH_CHECK(c, !never_created, "recorder 0 did not finish creating the instrument within 2 s of virtual time");
 
   // ---- oracle
   bool monotonic = cfg.kind == kCtrLong || cfg.kind == kCtrDouble;
-  for (size_t r = 0; r < cfg.reader_delta.size(); ++r)
-  {
-    bool delta      = cfg.reader_delta[r];
-    std::string who = "reader" + std::to_string(r) + (delta ? "(delta)" : "(cumulative)");
-    std::map<int, int64_t> sum_seen, last_cum;
-    std::map<int, bool> in_final;
-    uint64_t prev_end = sdk_start;
-    bool empty_since  = false;  // a collection without a MetricData for the stream since the last delivery
-    size_t k          = 0, n_of_reader = 0;
-    for (auto &cr : collects)
-      n_of_reader += cr.reader == static_cast<int>(r);
-    for (auto &cr : collects)
+  bool late_saw_in_flight = false, late_missed_in_flight = false;
+  for (size_t r = 0; r < reader_delta.size(); ++r)
+    for (int stream = 0; stream < kStreams; ++stream)
     {
-      if (cr.reader != static_cast<int>(r))
-        continue;
-      ++k;
-      bool final_one = k == n_of_reader;
-      std::string at = who + " collection #" + std::to_string(k) + (final_one ? " (final, after join)" : "");
-      VH_CHECK(c, cr.ok, at << ": Collect returned false");
-      VH_CHECK(c, cr.problem.empty(), at << ": " << cr.problem);
-      VH_CHECK(c, cr.n_md <= 1, at << ": " << cr.n_md << " MetricData for the one stream");
-      std::map<int, int> per_set;
-      for (auto &p : cr.points)
+      bool delta      = reader_delta[r];
+      bool late       = static_cast<int>(r) == late_index;
+      std::string who = "reader" + std::to_string(r) + (delta ? "(delta" : "(cumulative") + (late ? ", registered late)" : ")") +
+                        (stream ? " meter m2" : "");
+      // a measurement counts for certain unless this is the late reader and its Add call had begun before
+      // the registration returned
+      auto certain = [&](const AddRec &a) { return !late || a.call > reg_ret; };
+      std::map<int, int64_t> sum_seen, last_cum;
+      std::map<int, bool> in_final;
+      uint64_t prev_end = sdk_start;
+      bool empty_since  = false;  // a collection without a MetricData for the stream since the last delivery
+      bool first_of_late = late;
+      size_t k = 0, n_of_reader = 0;
+      for (auto &cr : collects)
+        n_of_reader += cr.reader == static_cast<int>(r);
+      for (auto &cr : collects)
       {
-        VH_CHECK(c, ++per_set[p.set] == 1, at << ": attribute set " << p.set << " reported twice in one collection");
-        // what had certainly / possibly been recorded for this set
-        int64_t lo = 0, hi = 0, lo_neg = 0, hi_pos = 0;
-        for (auto &a : adds)
+        if (cr.reader != static_cast<int>(r))
+          continue;
+        ++k;
+        bool final_one = k == n_of_reader;
+        std::string at = who + " collection #" + std::to_string(k) + (final_one ? " (final, after join)" : "");
+        VH_CHECK(c, cr.ok, at << ": Collect returned false");
+        VH_CHECK(c, cr.problem.empty(), at << ": " << cr.problem);
+        VH_CHECK(c, cr.n_md[stream] <= 1, at << ": " << cr.n_md[stream] << " MetricData for the one stream");
+        if (cr.n_md[stream])
+          VH_CHECK(c, cr.t_call < cr.md_end[stream] && cr.md_end[stream] < cr.t_ret,
+                   at << ": the interval ends at " << cr.md_end[stream] << ", outside the Collect call that delivered it ("
+                      << cr.t_call << " .. " << cr.t_ret << ", virtual ns)");
+        std::map<int, int> per_set;
+        for (auto &p : cr.points)
         {
-          if (a.set != p.set)
+          if (p.stream != stream)
             continue;
-          if (a.ret < cr.call)
+          VH_CHECK(c, ++per_set[p.set] == 1, at << ": attribute set " << p.set << " reported twice in one collection");
+          // what had certainly / possibly been recorded for this set
+          int64_t lo = 0, hi = 0;
+          for (auto &a : adds)
           {
-            lo += a.value;
-            hi += a.value;
+            if (a.set != p.set || a.stream != stream)
+              continue;
+            if (a.ret < cr.call && certain(a))
+            {
+              lo += a.value;
+              hi += a.value;
+            }
+            else if (a.call < cr.ret)
+            {
+              // concurrent with the collection (or in flight when the late reader joined): may or may not
+              // be included
+              if (a.value > 0)
+                hi += a.value;
+              else
+                lo += a.value;
+            }
           }
-          else if (a.call < cr.ret)
+          if (delta)
+            sum_seen[p.set] += p.value;
+          else
           {
-            // concurrent with the collection: may or may not be included
-            if (a.value > 0)
-              hi_pos += a.value;
-            else
-              lo_neg += a.value;
+            VH_CHECK(c, p.start_ns == sdk_start, at << ": a cumulative point starts at " << p.start_ns << ", SDK start is " << sdk_start);
+            VH_CHECK(c, p.value >= lo && p.value <= hi,
+                     at << " set" << p.set << ": cumulative value " << p.value << " but between " << lo << " and " << hi
+                        << " had been recorded when the Collect call began / returned");
+            if (monotonic && last_cum.count(p.set))
+              VH_CHECK(c, p.value >= last_cum[p.set], at << " set" << p.set << ": cumulative value fell from " << last_cum[p.set]
+                                                         << " to " << p.value);
+            last_cum[p.set] = p.value;
+            if (final_one)
+              in_final[p.set] = true;
           }
+          VH_CHECK(c, p.end_ns >= p.start_ns, at << ": interval ends before it starts");
         }
-        if (delta)
-          sum_seen[p.set] += p.value;
+        if (delta && cr.n_md[stream] >= 1)
+        {
+          // abutting intervals; a collection that delivered nothing for the stream may or may not have
+          // moved the start (the same two-sided rule as the sequential C06 harness); the first interval of
+          // the late reader may start anywhere from SDK start on
+          if (first_of_late)
+            VH_CHECK(c, cr.md_start[stream] >= sdk_start && cr.md_start[stream] <= cr.md_end[stream],
+                     at << ": the first delta interval of the late reader starts at " << cr.md_start[stream]
+                        << " (SDK start " << sdk_start << ", end " << cr.md_end[stream] << ")");
+          else if (!empty_since)
+            VH_CHECK(c, cr.md_start[stream] == prev_end, at << ": the delta interval starts at " << cr.md_start[stream]
+                                                            << " but the previous one ended at " << prev_end
+                                                            << " (SDK start " << sdk_start << ")");
+          else
+            VH_CHECK(c, cr.md_start[stream] >= prev_end && cr.md_start[stream] <= cr.md_end[stream],
+                     at << ": the delta interval starts at " << cr.md_start[stream] << ", before the previous one ended ("
+                        << prev_end << ")");
+          prev_end      = cr.md_end[stream];
+          empty_since   = false;
+          first_of_late = false;
+        }
+        else if (delta)
+          empty_since = true;
+      }
+      // totals: [lo, hi] is one point unless this is the late reader
+      std::map<int, int64_t> lo_total, hi_total;
+      std::map<int, bool> any;
+      for (auto &a : adds)
+      {
+        if (a.stream != stream)
+          continue;
+        any[a.set] = true;
+        if (certain(a) || a.value < 0)
+          lo_total[a.set] += a.value;
+        if (certain(a) || a.value > 0)
+          hi_total[a.set] += a.value;
+      }
+      for (auto &t : any)
+      {
+        int set      = t.first;
+        int64_t seen = delta ? sum_seen[set] : last_cum[set];
+        if (!delta && !in_final.count(set))
+        {
+          // either-region: a series whose running total is 0 may be absent
+          VH_CHECK(c, lo_total[set] <= 0 && 0 <= hi_total[set], who << " set" << set
+                                                                    << ": the final cumulative collection has no point although "
+                                                                    << lo_total[set] << " was recorded");
+          seen = 0;
+        }
+        if (!late)
+          VH_CHECK(c, seen == lo_total[set], who << " set" << set
+                                                 << (delta ? ": the delta points of all collections add up to "
+                                                           : ": the final cumulative point is ")
+                                                 << seen << " but " << lo_total[set] << " was recorded");
         else
         {
-          VH_CHECK(c, p.start_ns == sdk_start, at << ": a cumulative point starts at " << p.start_ns << ", SDK start is " << sdk_start);
-          VH_CHECK(c, p.value >= lo + lo_neg && p.value <= hi + hi_pos,
-                   at << " set" << p.set << ": cumulative value " << p.value << " but between " << (lo + lo_neg) << " and "
-                      << (hi + hi_pos) << " had been recorded (measurements that had returned before the Collect call: " << lo
-                      << ")");
-          if (monotonic && last_cum.count(p.set))
-            VH_CHECK(c, p.value >= last_cum[p.set], at << " set" << p.set << ": cumulative value fell from " << last_cum[p.set]
-                                                       << " to " << p.value);
-          last_cum[p.set] = p.value;
-          if (final_one)
-            in_final[p.set] = true;
+          VH_CHECK(c, lo_total[set] <= seen && seen <= hi_total[set],
+                   who << " set" << set
+                       << (delta ? ": the delta points of all collections add up to " : ": the final cumulative point is ") << seen
+                       << " but everything recorded after the registration is " << lo_total[set]
+                       << " and everything recorded at all allows at most " << hi_total[set]);
+          if (lo_total[set] != hi_total[set])
+            (seen == lo_total[set] ? late_missed_in_flight : late_saw_in_flight) = true;
         }
-        VH_CHECK(c, p.end_ns >= p.start_ns, at << ": interval ends before it starts");
       }
-      if (delta && cr.n_md >= 1)
-      {
-        // abutting intervals; a collection that delivered nothing for the stream may or may not have
-        // moved the start (the same two-sided rule as the sequential C06 harness)
-        if (!empty_since)
-          VH_CHECK(c, cr.md_start == prev_end, at << ": the delta interval starts at " << cr.md_start
-                                                  << " but the previous one ended at " << prev_end << " (SDK start "
-                                                  << sdk_start << ")");
-        else
-          VH_CHECK(c, cr.md_start >= prev_end && cr.md_start <= cr.md_end,
-                   at << ": the delta interval starts at " << cr.md_start << ", before the previous one ended (" << prev_end << ")");
-        prev_end    = cr.md_end;
-        empty_since = false;
-      }
-      else if (delta)
-        empty_since = true;
+      for (auto &sv : sum_seen)
+        VH_CHECK(c, any.count(sv.first), who << ": points for attribute set " << sv.first << " which nobody recorded");
+      for (auto &sv : last_cum)
+        VH_CHECK(c, any.count(sv.first), who << ": points for attribute set " << sv.first << " which nobody recorded");
     }
-    // totals
-    std::map<int, int64_t> total;
-    std::map<int, bool> any;
-    for (auto &a : adds)
-    {
-      total[a.set] += a.value;
-      any[a.set] = true;
-    }
-    for (auto &t : any)
-    {
-      int set = t.first;
-      if (delta)
-        VH_CHECK(c, sum_seen[set] == total[set], who << " set" << set << ": the delta points of all collections add up to "
-                                                     << sum_seen[set] << " but " << total[set] << " was recorded");
-      else
-      {
-        VH_CHECK(c, in_final.count(set), who << " set" << set << ": the final cumulative collection has no point although "
-                                             << total[set] << " was recorded");
-        VH_CHECK(c, last_cum[set] == total[set], who << " set" << set << ": the final cumulative point is " << last_cum[set]
-                                                     << " but " << total[set] << " was recorded");
-      }
-    }
-    for (auto &sv : sum_seen)
-      VH_CHECK(c, any.count(sv.first), who << ": points for attribute set " << sv.first << " which nobody recorded");
-  }
-  bool overlap = false;
+  bool overlap = false, reg_overlap = false;
   for (auto &cr : collects)
   {
     for (auto &a : adds)
       overlap = overlap || (a.call < cr.ret && cr.call < a.ret);
     overlap = overlap || (created_call < cr.ret && cr.call < created_ret);
   }
+  if (cfg.late_reader)
+    for (auto &a : adds)
+      reg_overlap = reg_overlap || (a.call < reg_ret && reg_call < a.ret);
+  bool renewed = false;
+  for (auto &prog : cfg.recorders)
+    for (auto &a : prog)
+      renewed = renewed || a.renew_handle;
   if (overlap)
     c.tag("collect-overlaps-add-or-create");
+  if (reg_overlap)
+    c.tag("late-registration-overlaps-add");
   if (rs.preemptions)
     c.tag("preempted");
   if (cfg.create_in_thread)
     c.tag("instrument-created-by-a-recorder-thread");
   if (cfg.own_handles)
     c.tag("one-handle-per-recorder");
+  if (renewed)
+    c.tag("handle-released-and-requested-again-between-adds");
+  if (cfg.second_meter)
+    c.tag("second-meter-obtained-by-a-recorder-thread");
+  if (cfg.view_drops_attributes)
+    c.tag("view-drops-all-attributes");
+  if (cfg.late_reader)
+    c.tag(cfg.late_reader == 1 ? "late-reader-delta" : "late-reader-cumulative");
+  if (late_saw_in_flight)
+    c.tag("late-reader-received-measurements-from-before-its-registration");
+  if (late_missed_in_flight)
+    c.tag("late-reader-missed-measurements-from-before-its-registration");
   c.tag("readers-" + std::to_string(cfg.reader_delta.size()));
-  c.nontrivial = overlap || rs.preemptions > 0;
+  c.nontrivial = overlap || reg_overlap || rs.preemptions > 0;
 }
